@@ -20,29 +20,32 @@ Fixpoint take_run (n : bytes) (es : list ent) : list ent :=
   match es with e :: r => if in_run n e then e :: take_run n r else [] | [] => [] end.
 Definition strip (e : ent) : ent := (tl (fst (fst e)), snd (fst e), snd e).
 
+(* one directory: [sub] computes the id of a sub-tree from the entries of its run *)
+Fixpoint walk_with (sub : list ent -> option bytes) (k : nat) (es : list ent) : option (list TreeObj.tentry) :=
+  match k with
+  | O => match es with [] => Some [] | _ => None end
+  | S k' =>
+    match es with
+    | [] => Some []
+    | (p, m, h) :: rest =>
+      match p with
+      | [] => None
+      | [n] => option_map (cons (TreeObj.mkT m n h)) (walk_with sub k' rest)
+      | n :: _ =>
+        let run := take_run n es in
+        match sub (map strip run), walk_with sub k' (skipn (List.length run) es) with
+        | Some id, Some l => Some (TreeObj.mkT fmode_Dir n id :: l)
+        | _, _ => None
+        end
+      end
+    end
+  end.
+
 Fixpoint s_tree (fuel : nat) (es : list ent) : option bytes :=
   match fuel with
   | O => None
   | S f =>
-    match (fix walk (k : nat) (es : list ent) : option (list TreeObj.tentry) :=
-             match k with
-             | O => match es with [] => Some [] | _ => None end
-             | S k' =>
-               match es with
-               | [] => Some []
-               | (p, m, h) :: rest =>
-                 match p with
-                 | [] => None
-                 | [n] => option_map (cons (TreeObj.mkT m n h)) (walk k' rest)
-                 | n :: _ =>
-                   let run := take_run n es in
-                   match s_tree f (map strip run), walk k' (skipn (List.length run) es) with
-                   | Some id, Some l => Some (TreeObj.mkT fmode_Dir n id :: l)
-                   | _, _ => None
-                   end
-                 end
-               end
-             end) (S (List.length es)) es with
+    match walk_with (s_tree f) (S (List.length es)) es with
     | Some l => Some (WriteTree.obj_id "tree" (List.concat (map TreeObj.encode_entry l)))
     | None => None
     end
